@@ -623,8 +623,27 @@ def differential(ctx, exe, driver, cases, oracle, stream, compare=None, batch=25
         return r["r"][0]
 
     if ofail:
+        # confirm: a failure must show again in one of two re-runs of the same case; what does not reproduce
+        # (a time-out of a real client thread under load, ...) is recorded as a warning, not reported
         ofail.sort(key=lambda x: len(x[1]))
-        cid, ops, d = ofail[0]
+        confirmed = []
+        for cid, ops, d in ofail[:6]:
+            for _ in range(2):
+                dd = oracle(ops, rerun(ops))
+                if dd and not (known_class and known_class(ops, rerun(ops), dd)):
+                    confirmed.append((cid, ops, dd))
+                    break
+            if confirmed:
+                break
+        if not confirmed:
+            ctx.warnings.append("%s: %d oracle failure(s) did not reproduce on re-run (transient; first: case %s: %s)" % (
+                stream, len(ofail), ofail[0][0], ofail[0][2][:200]))
+            ctx.count("transient-oracle-failures:" + stream, len(ofail))
+            log("note: %s: %d oracle failure(s) did not reproduce on re-run (case %s: %s)" % (
+                stream, len(ofail), ofail[0][0], ofail[0][2][:160]))
+            ofail = []
+    if ofail:
+        cid, ops, d = confirmed[0]
         head = ops[:1]
 
         def fails(sub):
